@@ -295,7 +295,9 @@ Fixpoint next (r : reader) : step :=
   end.
 
 (** Calling Token() until io.EOF, at most [fuel] times. *)
-Inductive outcome : Type := DEof | DPanic | DFuel.
+(** [DError]: Token() returned an error other than io.EOF.  The model never
+    does (the Go code has no such path); it is an observation only. *)
+Inductive outcome : Type := DEof | DPanic | DFuel | DError.
 
 Fixpoint drain_f (fuel : nat) (r : reader) : list otoken * outcome * reader :=
   match fuel with
@@ -789,7 +791,7 @@ Definition status_eqb (a b : status) : bool :=
   match a, b with StOk, StOk | StErr, StErr | StPanic, StPanic => true | _, _ => false end.
 
 Definition outcome_eqb (a b : outcome) : bool :=
-  match a, b with DEof, DEof | DPanic, DPanic | DFuel, DFuel => true | _, _ => false end.
+  match a, b with DEof, DEof | DPanic, DPanic | DFuel, DFuel | DError, DError => true | _, _ => false end.
 
 (** Error codes and texts are never compared. *)
 Definition res_eqb {A : Type} (eq : A -> A -> bool) (a b : res A) : bool :=
@@ -1163,8 +1165,17 @@ Definition raw_agrees (v : raw) (o : raw_obs) : bool :=
      end
   && marshal_agrees v (wo_mar o).
 
+(** The statement is about captured values.  A marshal-only value (made for
+    writing, never captured) has no tokens: when the reading of a value reaches
+    such a part ([snd (stream v)]), neither a panic nor an error is
+    constrained, but the reading must stop there, one way or the other, having
+    delivered what stands before that part: it may neither go on as if the part
+    were not there nor hang. *)
 Definition raw_spec_ok (v : raw) (o : raw_obs) : bool :=
   negb (outcome_eqb (ro_outcome (wo_read o)) DFuel)
+  && (negb (snd (stream v))
+      || ((outcome_eqb (ro_outcome (wo_read o)) DPanic || outcome_eqb (ro_outcome (wo_read o)) DError)
+          && list_eqb token_eqb (norm_otokens (drained (wo_read o))) (norm_otokens (fst (stream v)))))
   && (negb (no_end_tok v)
       || (wn_prefix [] (somes (drained (wo_read o)))
           && match ro_outcome (wo_read o) with
@@ -1226,6 +1237,15 @@ Definition prop_obs_agrees (m : res string) (o : prop_obs) : bool :=
   | _, _ => false
   end.
 
+(** Specification: the model's answer; where the selected value is marshal-only
+    (the model panics, as TokenReader does), a panic or an error other than
+    "not found" — the statement does not constrain which. *)
+Definition prop_obs_spec_ok (m : res string) (o : prop_obs) : bool :=
+  match m, o with
+  | Panic, (PPanic | POther) => true
+  | _, _ => prop_obs_agrees m o
+  end.
+
 (** The same for several values: the ids in the order of the arguments. *)
 Inductive propm_obs : Type := PMSel (ids : list string) | PMNotFound | PMOther | PMPanic.
 
@@ -1236,6 +1256,12 @@ Definition propm_obs_agrees (m : res (list string)) (o : propm_obs) : bool :=
   | Err c, PMOther => negb (N.eqb c 404)
   | Panic, PMPanic => true
   | _, _ => false
+  end.
+
+Definition propm_obs_spec_ok (m : res (list string)) (o : propm_obs) : bool :=
+  match m, o with
+  | Panic, (PMPanic | PMOther) => true
+  | _, _ => propm_obs_agrees m o
   end.
 
 (** ** valueXMLName *)
